@@ -5,8 +5,14 @@ export VERIF_REPO="${VERIF_REPO:-/repo}"
 export PYTHONPATH="$VERIF_REPO:$(pwd)" PYTHONDONTWRITEBYTECODE=1
 /venv/bin/python tools/gen_lean.py || echo "setup: translator refused the current source (checks will report it)"
 cd lean || exit 2
-lake build AsyncFix driver 2>&1 | tail -5
-# non-gating counter-example modules of the open findings (failures here are reported by the checks, not by setup)
+mods=""
+for f in AsyncFix/Props/*.lean; do
+  [ -f "$f" ] || continue
+  mods="$mods $(echo "${f%.lean}" | tr / .)"
+done
+# all property theorems + the model driver (16 cores; a failing proof is reported by its check, not here)
+lake build driver $mods 2>&1 | tail -5
+# non-gating counter-example modules of the open findings
 for f in AsyncFix/Findings/*.lean; do
   [ -f "$f" ] || continue
   m=$(echo "${f%.lean}" | tr / .)
